@@ -15,6 +15,7 @@
    run (VL [VN 10; profile; VB mid; call]) -> VL [VL [tree...]; VL [VN hole...]; VN nvalues]   the carries tables of Spec/CarriesBase.v:
         the request [wrap (fill (values c) (template p (erase c)))], the holes of the template, the number of values
    run (VL [VN 11; VB mid; vcall])         -> the same for the vendor classes (Spec/CarriesVendor.v)
+   run (VL [VN 12; VN iosxe; tree]) -> tree     Builders.transform_edit_config (the profile's hook) on an ARBITRARY tree
    (entry point 9 is unused; the carries tables were renumbered 8 -> 10, 9 -> 11 when merged with the NsScope entry point 8) *)
 From NC Require Import Model.Base Model.Xml Model.Escape Model.Gating Model.Builders Glue.C09_glue.
 From NC Require Import Model.VendorBuilders.
@@ -275,6 +276,7 @@ Definition run (v : val) : val :=
       | Some c' => e_vres (vbuild_under (if N.eqb m 0 then Prefixed else DefaultNs) mid c')
       | None => verr 1
       end
+  | VL [VN 12; VN x; t] => e_tree (transform_edit_config {| p_ns := Prefixed; p_iosxe := negb (N.eqb x 0) |} (d_tree t))
   | VL [VN 8; sc; t] => VL (map e_bindings (decls_preorder (place (d_bindings sc) (d_dtree t))))
   | _ => verr 1
   end.
